@@ -32,7 +32,7 @@ Extraction "model.ml"
   Index.elements Index.strides Index.flat Index.unflat Index.index_from_flat
   Index.index_sum_from_flat Index.indices Index.inb Index.mirror
   ArrayM.arr_new ArrayM.get ArrayM.set ArrayM.get_axis ArrayM.viter_new ArrayM.vnext ArrayM.vlen
-  ArrayM.view_items ArrayM.axis_next ArrayM.axis_len ArrayM.ind_next ArrayM.ind_len
+  ArrayM.view_items ArrayM.view_to_array ArrayM.axis_next ArrayM.axis_len ArrayM.ind_next ArrayM.ind_len
   z_sum_axis qc_of qc_num qc_den
   Spectrum.marginalize Spectrum.keep_to_remove Spectrum.normalize Spectrum.mask_monomorphic
   Ext.e_fold Ext.e_marginalize
